@@ -57,7 +57,19 @@ def run(ctx):
         if k < 0.9 and n >= 2:
             # as many row numbers as the table has rows: a resampling that misses row 0, a reversal written with negative numbers, a permutation
             kind = r.random()
-            idx = [r.randint(1, n - 1) for _ in range(n)] if kind < 0.4 else (list(range(-1, -n - 1, -1)) if kind < 0.7 else r.sample(range(n), n))
+            if kind < 0.3:
+                idx = [r.randint(1, n - 1) for _ in range(n)]
+            elif kind < 0.5:
+                idx = list(range(-1, -n - 1, -1))
+            elif kind < 0.75 and n >= 4:
+                # a run of consecutive rows whose ends stay in place and whose inner rows are shuffled (the selected bytes are one gap-free stretch of the file)
+                a_ = r.randint(0, n - 4)
+                b_ = r.randint(a_ + 3, n - 1)
+                inner = list(range(a_ + 1, b_))
+                r.shuffle(inner)
+                idx = [a_] + inner + [b_]
+            else:
+                idx = r.sample(range(n), n)
             return ("fancy", idx, r.random() < 0.3)
         return ("empty",)
 
